@@ -467,9 +467,39 @@ func checkC19(c *Ctx) {
 	}
 
 	// ---------------- R19.2 ----------------
-	red := c.Func(zp, "redirectStdLogAt")
-	if c.Anchor("R19.2", "zap.redirectStdLogAt", red != nil) {
-		name := red.String()
+	// the function of package zap that re-points the standard library's logger: the one that calls log.SetOutput
+	var red *ssa.Function
+	c.EachRootFunc(func(f *ssa.Function) {
+		if f.Pkg == nil || f.Pkg.Pkg.Path() != zp || f.Parent() != nil {
+			return
+		}
+		for _, cl := range Calls(f) {
+			if IsCallTo(cl, "log.SetOutput") && (red == nil || f.String() < red.String()) {
+				red = f
+			}
+		}
+	})
+	if c.Anchor("R19.2", "zap: the function that calls log.SetOutput", red != nil) {
+		name := "zap.std-log-redirection"
+		// ... and none of the functions that use it as a helper reports an error once it has run
+		for _, site := range sitesOf(red) {
+			g := site.Parent()
+			var w ssa.Instruction
+			for _, r := range Returns(g) {
+				if !errResultMayBeNonNil(r) || !ExistsPath(g, site, func(x ssa.Instruction) bool { return x == ssa.Instruction(r) }, nil) {
+					continue
+				}
+				// the helper's own error handed on: it reports one only before it changed anything (decided below)
+				rv := RetVals(r)
+				if ex, isEx := Strip(rv[len(rv)-1]).(*ssa.Extract); isEx && ex.Tuple == site.Value() {
+					continue
+				}
+				w = r
+			}
+			if w != nil {
+				c.Bad("R19.2", name, "no-error-after-helper/"+g.Name(), site.Pos(), "%s can return an error (%s) after %s changed the standard logger; the change is not undone on that path", g.Name(), c.Pos(w.Pos()), red.Name())
+			}
+		}
 		setters := map[string]string{"log.SetFlags": "log.Flags", "log.SetPrefix": "log.Prefix", "log.SetOutput": ""}
 		getCalls := map[string]*ssa.Call{}
 		for _, cl := range CallsDeep(red) {
